@@ -669,12 +669,17 @@ def check_cipher(ck, mod, f, label, rulemap):
                 c.ob(not miss_o, "SENS", "%s-plaintext-sensitive" % name, "every ciphertext bit of the %s reaches the corresponding recovered plaintext bit" % name,
                      "recovered plaintext does not depend on ciphertext byte/bit %s: a modification there goes unnoticed by the authentication" % (miss_o[:3],))
                 if kind == "aead" and got_state is not None:
-                    sup = set()
-                    for w_ in got_state:
-                        for bit_ in w_:
-                            if bit_ is not gf2.TOP:
-                                sup |= gf2.support(bit_, memo_s)
-                    miss_s = sorted(inbits - sup, key=repr)
+                    # word k of the segment must enter the state that the next permutation (or, for the last word, the tag generation) starts from
+                    miss_s = []
+                    for k_, (off_, nb) in enumerate(steps):
+                        nxt_state = [list(w_) for w_ in segP[k_ + 1][3]] if k_ + 1 < len(segP) else got_state
+                        sup = set()
+                        for w_ in nxt_state:
+                            for bit_ in w_:
+                                if bit_ is not gf2.TOP:
+                                    sup |= gf2.support(bit_, memo_s)
+                        want_bits = {(("mem", in_cur, off_ + j_) if in_cur[0] != "idx" else ("mem", in_cur[1], (in_cur[2], off_ + j_)), b_) for j_ in range(nb) for b_ in range(8)}
+                        miss_s += sorted(want_bits - sup, key=repr)
                     c.ob(not miss_s, "SENS", "%s-state-sensitive" % name, "every ciphertext bit of the %s enters the state the tag is computed from" % name,
                          "the state after the %s does not depend on %d ciphertext bit(s), e.g. %s: tampering with them is accepted" % (name, len(miss_s), miss_s[:2]))
                 n += 2
